@@ -11,6 +11,7 @@ import (
 	"fmt"
 	"io"
 	"net"
+	"reflect"
 	"runtime"
 	"strconv"
 	"strings"
@@ -92,8 +93,8 @@ type run struct {
 	mu   sync.Mutex
 	gids map[uint64]int // goroutine id -> call id
 	// identities assigned in trace order, under the recorder lock
-	pwIDs    map[string]int
-	batchIDs map[string]int
+	pwIDs    map[interface{}]int
+	batchIDs map[interface{}]int
 	nextOut  map[string]int
 	log      map[string][]string
 	gates    *gates
@@ -206,7 +207,15 @@ func InstallHook() {
 	}
 }
 
-func ptr(x interface{}) string { return fmt.Sprintf("%p", x) }
+// ptr returns the identity of a hooked object. The pointer itself is used as
+// map key, which also keeps the object alive so that addresses are not reused.
+func ptr(x interface{}) interface{} {
+	v := reflect.ValueOf(x)
+	if !v.IsValid() || (v.Kind() == reflect.Ptr && v.IsNil()) {
+		return nil
+	}
+	return x
+}
 
 func (r *run) callOfG() int {
 	r.mu.Lock()
@@ -214,7 +223,7 @@ func (r *run) callOfG() int {
 	return r.gids[goid()]
 }
 
-func (r *run) pwID(p string) int { // under recorder lock
+func (r *run) pwID(p interface{}) int { // under recorder lock
 	id, ok := r.pwIDs[p]
 	if !ok {
 		id = len(r.pwIDs) + 1
@@ -223,8 +232,8 @@ func (r *run) pwID(p string) int { // under recorder lock
 	return id
 }
 
-func (r *run) batchID(p string) int { // under recorder lock
-	if p == "0x0" || p == "%!p(<nil>)" {
+func (r *run) batchID(p interface{}) int { // under recorder lock
+	if p == nil {
 		return 0
 	}
 	id, ok := r.batchIDs[p]
@@ -241,6 +250,8 @@ func (r *run) hook(ev string, a []interface{}) {
 	case "w.enter":
 		c := r.callOfG()
 		r.rec.Emit(trace.Event{"ev": "enter", "c": c, "ok": a[0].(bool)})
+	case "w.leave":
+		r.rec.Emit(trace.Event{"ev": "leave", "c": r.callOfG()})
 	case "w.bm.begin":
 		r.rec.Emit(trace.Event{"ev": "bm.begin", "c": r.callOfG()})
 	case "w.bm.end":
